@@ -718,7 +718,8 @@ def gen_fault_plans(ch: Choices, tmpl: dict, reached: list[int],
     plans: list[list] = []
     if not reached:
         return plans
-    sites = sorted(set(reached))
+    sites = sorted(k for k in set(reached) if k != "T")
+    ntr = sum(1 for k in reached if k == "T")
     for _ in range(n_plans):
         nf = ch.weighted([(5, 1), (3, 2), (1, 3)])
         plan = []
@@ -736,5 +737,10 @@ def gen_fault_plans(ch: Choices, tmpl: dict, reached: list[int],
                 do = ["ret", g.value_for(role)]
             n = ch.weighted([(5, "*"), (3, 0), (2, 1)])
             plan.append({"site": k, "n": n, "do": do})
+        if ntr and ch.coin(0.25):
+            # the translation function fails at one of its calls
+            plan.append({"site": "T", "n": ch.choose(ntr),
+                         "do": ["raise", ch.pick(UNCAUGHT_NAMES +
+                                                 CAUGHT_NAMES)]})
         plans.append(plan)
     return plans
